@@ -5,6 +5,7 @@ import (
 	"fmt"
 	"math"
 	"sync"
+	"time"
 
 	"github.com/dtn7/dtn7-go/pkg/bpv7"
 	"github.com/dtn7/dtn7-go/pkg/routing"
@@ -46,6 +47,8 @@ type c19Task struct {
 	Depth  int    `json:"depth"`
 	Vals   []int  `json:"vals"` // indices into c19Vals used for vector values
 	Orbits int    `json:"orbits"`
+	// MaxTrans bounds the transitions of the numeric BFS of this task (0 = none)
+	MaxTrans int `json:"max_trans,omitempty"`
 }
 
 type c19Out struct {
@@ -54,6 +57,7 @@ type c19Out struct {
 	OrbitSteps  int         `json:"orbit_steps"`
 	Viol        []schedViol `json:"viol,omitempty"`
 	Sample      string      `json:"sample"`
+	Capped      string      `json:"capped,omitempty"`
 }
 
 var c19Peers = []string{"dtn://p1/", "dtn://p2/", "dtn://d/"}
@@ -142,9 +146,16 @@ func c19Worker(task []byte) []byte {
 	type node struct{ h []c19Event }
 	seen := map[[3]uint64]bool{{0, 0, 0}: true}
 	frontier := []node{{}}
+	started := time.Now()
+bfs:
 	for d := 0; d < t.Depth && len(frontier) > 0; d++ {
 		var next []node
 		for _, nd := range frontier {
+			// a task stays well below the worker watchdog: bounded by transitions and by real time
+			if (t.MaxTrans > 0 && out.Transitions >= t.MaxTrans) || time.Since(started) > 150*time.Second {
+				out.Capped = fmt.Sprintf("constants %+v: numeric BFS stopped in level %d after %d transitions (%d states); levels below are complete", t.Cfg, d+1, out.Transitions, len(seen))
+				break bfs
+			}
 			for _, e := range alpha {
 				p := replay(nd.h)
 				before := c19State(p)
@@ -283,7 +294,7 @@ func runC19(r *ev.Run, thorough bool) int {
 	}
 	var tasks [][]byte
 	for _, c := range cfgs {
-		tasks = append(tasks, mustJSON(c19Task{Cfg: c, Depth: depth, Vals: vals, Orbits: 11}))
+		tasks = append(tasks, mustJSON(c19Task{Cfg: c, Depth: depth, Vals: vals, Orbits: 11, MaxTrans: 400000}))
 	}
 	var mu sync.Mutex
 	states, trans, orbit := 0, 0, 0
@@ -296,6 +307,9 @@ func runC19(r *ev.Run, thorough bool) int {
 		}
 		var o c19Out
 		_ = json.Unmarshal(pr.Res, &o)
+		if o.Capped != "" {
+			r.Capped(o.Capped)
+		}
 		states += o.States
 		trans += o.Transitions
 		orbit += o.OrbitSteps
